@@ -2,6 +2,9 @@ import RpmVerif.Driver.C05
 import RpmVerif.Driver.Hash
 import RpmVerif.Model.Builder
 import RpmVerif.Model.Path
+import RpmVerif.Model.WithFile
+import RpmVerif.Spec.FileOptions
+import RpmVerif.Gen.CompressionNames
 /-! Shared driver front-end for the builder properties (C06, C08, C09, C11): decodes the compact
 configuration of harness/src/bld.rs into the builder state the model works on. -/
 namespace RpmVerif.Driver.Bld
@@ -29,45 +32,33 @@ def content (seed size : Nat) : Bytes :=
 
 def sha256hex (b : Bytes) : Bytes := (hexOfBytes (Hash.sha256L b)).toUTF8.toList
 
-/-- `add_data`'s path handling (same logic as Model/AddData.lean of C17) -/
-def addData (dest : Bytes) : Option (Bytes × Bytes × Bytes) :=
-  open RpmVerif.Path in
-  if !strStartsWith dest [46, 47] && !strStartsWith dest [47] then none else
-  match parent dest with
-  | none => none
-  | some par =>
-    let r : Option (Bytes × Bytes) :=
-      if strStartsWith dest [46] then
-        match stripPrefixDot par with
-        | none => none
-        | some sp => some (dest, [47] ++ sp ++ [47])
-      else some ([46] ++ dest, par ++ [47])
-    match r, fileName dest with
-    | some (_, dir), some bn =>
-      let dir := if dir == [47, 47] then [47] else dir
-      -- since fix cbb69e5 the archive entry is named "." ++ dir ++ base name
-      some ([46] ++ dir ++ bn, dir, bn)
-    | _, _ => none
+/-- `add_data`'s path handling: the model of C17 (`Model/AddData.lean`), as an `Option` -/
+def addData (dest : Bytes) : Option (Bytes × Bytes × Bytes) := (RpmVerif.AddData.addData dest).toOption
 
+/-- one `f=` token: `call` is what the harness does with it (source file it prepares, options chain in the harness' call
+order) — the input of the MODEL (`Model/WithFile.lean`); the other fields are what the request asks for — the input of the
+SPEC (C06), computed without the model: the mode word asked for (`none` where the property is silent: an explicit `i32`
+outside 16 bits), owner, group, the attribute bits of the named directives by rpm's own numbers (`Spec/FileOptions.lean`) … -/
 structure FileReq where
   dest : Bytes
-  mode : Nat
+  call : RpmVerif.WithFile.Call
+  mode : Option Nat
   user : Bytes
   group : Bytes
   flags : Nat
   caps : Option Bytes
   link : Bytes
-  mtime : Nat
+  mtime : Int
   seed : Nat
   size : Nat
   verifyFlags : Nat
-  deriving Repr
 
 structure Req where
   cfg : Cfg
   files : List FileReq       -- as requested, in request order
   now : Nat
-  deriving Repr
+  /-- the error class when the MODEL's sequence of `with_file` calls fails (then `cfg.files` is empty) -/
+  buildErr : Option String := none
 
 def kv (toks : List String) (k : String) : Option String :=
   toks.findSome? fun t => if t.startsWith (k ++ "=") then some (t.drop (k.length + 1)).toString else none
@@ -79,32 +70,104 @@ def parseScript (p : List String) : Option RpmVerif.Bld.Scriptlet :=
       (if pr == "~" then none else if pr == "-" then some [] else some ((pr.splitOn ",").map hb))⟩
   | _ => none
 
-def insertSorted (f : FileE) : List FileE → List FileE
-  | [] => [f]
-  | g :: r => if f.cpioPath == g.cpioPath then g :: r           -- `or_insert`: the first one stays
-              else if f.cpioPath < g.cpioPath then f :: g :: r else g :: insertSorted f r
+/-! ### the `f=` token
+
+`f=<dest>:<mode>:<user>:<group>:<flags>:<caps|~>:<link>:<mtime>:<seed>:<size>:<verifyflags|~>[:<extras>]`
+* `<mode>`: `i<perm>` — no `mode(..)` call, the source file is chmod-ed to `<perm>` (all 12 bits); `<n>` (signed decimal) —
+  `.mode(n as i32)` after `symlink(..)`; `f<n>` / `l<n>` — the same call made FIRST (right after `new`) / LAST (after the flag
+  setters); `u<n>` — `.mode(n as u16)`.
+* `<flags>`: `+`-separated `is_*` setter names without the prefix, in call order (`config_noreplace+doc`), `0` = none; a
+  number is the legacy encoding (bit 2 doc, 1 config, 16 config_noreplace, 64 ghost, 128 license, 256 readme, in that order).
+* `<mtime>`: signed seconds; `<extras>`: `+`-separated `ns=<nanos>`, `k=<dir|missing>` (what the source path is). -/
+
+def setterNames : List String := RpmVerif.Gen.fileOptionSetters.map (·.1)
+
+/-- the `is_*` setters a flags field names, as indices of `Gen.fileOptionSetters` (unknown names: index past the table) -/
+def flagSetters (fl : String) : List Nat :=
+  match fl.toNat? with
+  | some n =>
+    [("is_doc", 2), ("is_config", 1), ("is_config_noreplace", 16), ("is_ghost", 64), ("is_license", 128), ("is_readme", 256)].filterMap
+      fun (nm, bit) => if n &&& bit != 0 then some (setterNames.idxOf nm) else none
+  | none => if fl == "-" then [] else (fl.splitOn "+").map fun nm => setterNames.idxOf ("is_" ++ nm)
+
+/-- the attribute bits the SPEC expects for those directives (`Spec/FileOptions.lean`, not the scraped table) -/
+def specFlags (idxs : List Nat) : Nat :=
+  idxs.foldl (fun acc i => acc ||| ((RpmVerif.FileOptionsSpec.settersStd[i]?).map (·.2)).getD 0) 0
+
+def parseFile (t : String) : Option FileReq :=
+  open RpmVerif.WithFile RpmVerif.FileMode in
+  let parts := (t.drop 2).toString.splitOn ":"
+  match parts.take 11, parts.drop 11 with
+  | [d, m, u, gr, fl, cp, ln, mt, sd, sz, vf], ex =>
+    if ex.length > 1 then none else
+    let extras := (ex.headD "").splitOn "+"
+    let user := hb u; let group := hb gr; let link := hb ln
+    let caps := if cp == "~" then none else some (hb cp)
+    let seed := sd.toNat?.getD 0; let size := sz.toNat?.getD 0
+    let secs := mt.toInt?.getD 0
+    let nanos := ((kv extras "ns").bind (·.toNat?)).getD 0
+    let flagIdx := flagSetters fl
+    -- the mode argument and where the harness places the call
+    let (pos, arg) : String × String :=
+      if m.startsWith "i" then ("i", (m.drop 1).toString) else if m.startsWith "f" then ("f", (m.drop 1).toString)
+      else if m.startsWith "l" then ("l", (m.drop 1).toString) else if m.startsWith "u" then ("u", (m.drop 1).toString) else ("m", m)
+    let n : Int := arg.toInt?.getD 0
+    let modeSetter : List Setter :=
+      if pos == "i" then [] else if pos == "u" then [.mode (fromU16 (asU16 n))] else [.mode (fromI32 n)]
+    let base : List Setter := [.user user, .group group, .symlink link]
+    let tail : List Setter := (match caps with | some c => [.caps c] | none => []) ++
+      (if vf == "~" then [] else [.verify (vf.toNat?.getD 0)])
+    let flags : List Setter := flagIdx.map .flag
+    let setters := if pos == "f" then modeSetter ++ base ++ tail ++ flags
+                   else if pos == "l" then base ++ tail ++ flags ++ modeSetter
+                   else base ++ modeSetter ++ tail ++ flags
+    -- the source the harness prepares: a regular file with the generated content, chmod-ed, mtime set
+    let perm := if pos == "i" then n.toNat &&& 0o7777 else 0o644
+    let src : Source :=
+      match kv extras "k" with
+      | some "dir" => .readFails
+      | some "missing" => .openFails
+      | _ => if h : nanos < 1000000000 then .readable ⟨content seed size, S_IFREG ||| perm, ⟨secs, nanos, h⟩⟩ else .openFails
+    let specMode : Option Nat :=
+      if pos == "i" then some (0o100000 ||| perm)
+      else if -32768 ≤ n && n ≤ 65535 then some (n % 65536).toNat else none
+    some ⟨hb d, ⟨src, hb d, setters⟩, specMode, user, group, specFlags flagIdx, caps, link, secs, seed, size,
+          (if vf == "~" then RpmVerif.Gen.FileVerifyFlags.all else vf.toNat?.getD 0)⟩
+  | _, _ => none
+
+/-- the cargo features of the rpm-rs build the harness links: its defaults, plus bzip2 unless `feat=nobz` -/
+def featureEnabled (nobz : Bool) (t : Nat) : Bool :=
+  RpmVerif.Gen.cargoDefaultFeatureTypes.contains t || (!nobz && RpmVerif.Gen.compressionVariants[t]? == some "Bzip2")
+
+/-- a (`CompressionWithLevel` variant index, level) pair of the tables as the builder model's `Comp` -/
+def compOfVariant (p : Nat × Int) : Comp :=
+  match RpmVerif.Gen.levelVariants[p.1]? with
+  | some "Gzip" => .gzip p.2.toNat | some "Zstd" => .zstd p.2 | some "Xz" => .xz p.2.toNat | some "Bzip2" => .bzip2 p.2.toNat
+  | _ => .none
+
+/-- `CompressionWithLevel::default()` for that feature set (table scraped from compressor.rs) -/
+def defaultComp (nobz : Bool) : Comp :=
+  match RpmVerif.AddData.defaultCompression (featureEnabled nobz) with
+  | some p => compOfVariant p
+  | none => .none
+
+/-- `CompressionType::<name>.into()` -/
+def compOfTypeName (name : String) : Comp :=
+  let t := (RpmVerif.Gen.compressionVariants.map String.toLower).idxOf name
+  match RpmVerif.AddData.withLevelOfType t with
+  | some p => compOfVariant p
+  | none => .none
 
 def parseReq (toks : List String) : Option Req := do
   let g := kv toks
   let opt (k : String) : Option Bytes := (g k).map hb
-  let fileReqs : List FileReq := toks.filterMap fun t =>
-    if t.startsWith "f=" then
-      match (t.drop 2).toString.splitOn ":" with
-      | [d, m, u, gr, fl, cp, ln, mt, sd, sz, vf] =>
-        let mode := if m.startsWith "i" then (0o100000 ||| ((m.drop 1).toString.toNat?.getD 0 &&& 0o7777)) else
-          -- `.mode(i32)`: From<i32> then From<FileMode> for u16 = raw_mode
-          (m.toInt?.getD 0 % 65536).toNat
-        some ⟨hb d, mode, hb u, hb gr, fl.toNat?.getD 0, (if cp == "~" then none else some (hb cp)), hb ln,
-              mt.toNat?.getD 0, sd.toNat?.getD 0, sz.toNat?.getD 0, (if vf == "~" then RpmVerif.Gen.FileVerifyFlags.all else vf.toNat?.getD 0)⟩
-      | _ => none
-    else none
-  let files := fileReqs.foldl (fun acc f =>
-    match addData f.dest with
-    | some (cpio, dir, bn) =>
-      insertSorted ⟨cpio, dir, bn, f.size, f.mode, f.user, f.group, f.link, f.flags, f.caps, f.verifyFlags, f.mtime,
-                    sha256hex (content f.seed f.size)⟩ acc
-    | none => acc) []
-  let dirs := sortedDedup (fileReqs.filterMap fun f => (addData f.dest).map (·.2.1))
+  let fileReqs : List FileReq := toks.filterMap fun t => if t.startsWith "f=" then parseFile t else none
+  -- the builder state: the MODEL of the `with_file` calls (`Model/WithFile.lean`), in request order
+  let state := RpmVerif.WithFile.buildState sha256hex (fun _ => true) (fileReqs.map (·.call)) RpmVerif.WithFile.BState.empty
+  let (files, dirs, buildErr) : List FileE × List Bytes × Option String := match state with
+    | .ok st => (st.files, st.directories, none)
+    | .err e => ([], [], some e)
+    | .panic p => ([], [], some ("panic:" ++ p))
   let deps (kind : String) : List Dep := toks.filterMap fun t =>
     if t.startsWith "dp=" then
       match (t.drop 3).toString.splitOn ":" with
@@ -123,9 +186,11 @@ def parseReq (toks : List String) : Option Req := do
       | [n, x, tm] => some (hb n, hb x, tm.toNat?.getD 0)
       | _ => none
     else none
+  let nobz := g "feat" == some "nobz"
   let comp : Comp := match g "c" with
-    | none => .zstd 19
+    | none => defaultComp nobz                        -- no `compression(..)` call: `CompressionWithLevel::default()`
     | some c => match c.splitOn ":" with
+      | [ty, "d"] => compOfTypeName ty                -- `compression(CompressionType::<ty>)`
       | ["none"] => .none | ["none", _] => .none
       | ["gzip", l] => .gzip (l.toNat?.getD 0) | ["zstd", l] => .zstd (l.toInt?.getD 0)
       | ["xz", l] => .xz (l.toNat?.getD 0) | ["bzip2", l] => .bzip2 (l.toNat?.getD 0)
@@ -143,7 +208,7 @@ def parseReq (toks : List String) : Option Req := do
     postUntrans := script "postuntrans", verify := script "verify", changelog := changelog, compression := comp,
     largeFileThreshold := ((g "lf").bind (·.toNat?)).getD 4294967295 }
   let now ← (g "now").bind (·.toNat?)
-  pure ⟨cfg, fileReqs, now⟩
+  pure ⟨cfg, fileReqs, now, buildErr⟩
 
 /-- the verify scriptlet through the raw getters, as harness `verify_script_dump` -/
 def verifyDump (h : Header) : String :=
